@@ -437,7 +437,13 @@ func reifyGetField(
 	fieldType reflect.Type,
 ) Error {
 	p := parsePathWithOpts(name, opts.opts)
-	value, err := p.GetValue(cfg, opts.opts)
+	// A name with several elements stands for nested fields: the references
+	// its path leads through stay active while the setting found is unpacked,
+	// so that a reference back to them is reported as cyclic instead of being
+	// followed again on every level of a recursive target type.
+	active := opts.opts.activeFields
+	defer func() { opts.opts.activeFields = active }()
+	value, err := p.getValue(cfg, opts.opts, len(p.fields) > 1)
 	if err != nil {
 		if err.Reason() != ErrMissing {
 			return err
